@@ -1037,7 +1037,7 @@ impl SourceTextModule {
         context: &mut Context,
     ) -> JsResult<JsPromise> {
         // 1. Assert: This call to Evaluate is not happening at the same time as another call to Evaluate within the surrounding agent.
-        let (module, promise) = {
+        let module = {
             match &*self.status.borrow() {
                 ModuleStatus::Unlinked { .. }
                 | ModuleStatus::Linking { .. }
@@ -1047,35 +1047,21 @@ impl SourceTextModule {
                         "2. Assert: module.[[Status]] is one of linked, evaluating-async, or evaluated."
                     )
                 }
-                ModuleStatus::Linked { .. } => (module_self.clone(), None),
+                ModuleStatus::Linked { .. } => module_self.clone(),
                 // 3. If module.[[Status]] is either evaluating-async or evaluated, set module to module.[[CycleRoot]].
-                ModuleStatus::EvaluatingAsync {
-                    cycle_root,
-                    top_level_capability,
-                    ..
-                }
-                | ModuleStatus::Evaluated {
-                    cycle_root,
-                    top_level_capability,
-                    ..
-                } => (
-                    cycle_root.clone(),
-                    top_level_capability
-                        .as_ref()
-                        .map(|cap| {
-                            JsPromise::from_object(cap.promise().clone()).js_expect(
-                                "promise created from the %Promise% intrinsic is always native",
-                            )
-                        })
-                        .transpose()?,
-                ),
+                ModuleStatus::EvaluatingAsync { cycle_root, .. }
+                | ModuleStatus::Evaluated { cycle_root, .. } => cycle_root.clone(),
             }
+        };
+        let ModuleKind::SourceText(module_src) = module.kind() else {
+            unreachable!("module must be a source text module");
         };
 
         // 4. If module.[[TopLevelCapability]] is not empty, then
-        if let Some(promise) = promise {
+        if let Some(cap) = module_src.status.borrow().top_level_capability() {
             // a. Return module.[[TopLevelCapability]].[[Promise]].
-            return Ok(promise);
+            return Ok(JsPromise::from_object(cap.promise().clone())
+                .js_expect("promise created from the %Promise% intrinsic is always native")?);
         }
 
         // 5. Let stack be a new empty List.
@@ -1091,10 +1077,21 @@ impl SourceTextModule {
             "capability creation must always succeed when using the `%Promise%` intrinsic",
         )?;
 
+        // A linked module stores the capability when `inner_evaluate` moves it to the evaluating
+        // state; a module whose evaluation has already started has to record it here.
+        if let ModuleStatus::EvaluatingAsync {
+            top_level_capability,
+            ..
+        }
+        | ModuleStatus::Evaluated {
+            top_level_capability,
+            ..
+        } = &mut *module_src.status.borrow_mut()
+        {
+            *top_level_capability = Some(capability.clone());
+        }
+
         // 8. Let result be Completion(InnerModuleEvaluation(module, stack, 0)).
-        let ModuleKind::SourceText(module_src) = module.kind() else {
-            unreachable!("module must be a source text module");
-        };
         let result =
             module_src.inner_evaluate(&module, &mut stack, 0, Some(capability.clone()), context);
 
